@@ -517,6 +517,22 @@ func (c *EvalCtx) localName(name string) (tv, bool) {
 			}
 		}
 	}
+	// the hidden index of an enclosing range loop (a nested loop's clauses may name the outer loop's "rangeindex")
+	if name == "rangeindex" {
+		var found *ssa.Phi
+		for _, b := range fr.fn.Blocks {
+			for _, in := range b.Instrs {
+				if ph, ok := in.(*ssa.Phi); ok && ph.Comment == name {
+					if _, has := st.vals[ph]; has && (c.lc == nil || ph.Block() != c.lc.l.Header) {
+						found = ph
+					}
+				}
+			}
+		}
+		if found != nil {
+			return tv{st.vals[found], found.Type()}, true
+		}
+	}
 	// variables living in allocated cells (address-taken or captured by closures)
 	for _, b := range fr.fn.Blocks {
 		for _, in := range b.Instrs {
